@@ -317,8 +317,14 @@ def _sqlite(check: Check):
   # num_examples with validation, of the same examples that are serialised
   okn = False
   if cnt_call is not None:
-    kw = {k.arg: txt(k.value) for k in cnt_call.keywords}
-    ex = cnt_call.args[0] if cnt_call.args else None
+    from fjsa.flow import bound_args
+    ba = bound_args(pff, cnt_call)
+    g_ = pff.callee(cnt_call)
+    vd = ba.get('validate')
+    if vd is None and g_.kind == 'func':
+      vd = g_.func.param_default('validate')
+    kw = {'validate': txt(vd) if vd is not None else 'True'}
+    ex = ba.get(g_.func.positional_params[0]) if g_.kind == 'func' else (cnt_call.args[0] if cnt_call.args else None)
     ser_arg = wr[1].args[0] if wr is not None else None
     okn = (kw.get('validate', 'True') == 'True' and ex is not None and ser_arg is not None and from_input(ex, 1) and from_input(ser_arg, 1) and
            {txt(v) for v in pff.expand(ex)} == {txt(v) for v in pff.expand(ser_arg)})
